@@ -42,11 +42,10 @@ LEVEL_TEXT = ("Machine-checked Coq theorems over an executable model of parse_is
               "scalars; thorough: every day of a 400-year span x 4 variants); a direct property oracle supplies replayable failing inputs.")
 LEVEL_NOTE = ("Trusted: Coq kernel + vm_compute; hand-written models of CPython's int(str), str.isdigit, bytes.decode('utf-8'), datetime(...) "
               "range checks and datetime.fromtimestamp(tz=utc) (each also validated on its own stream against the running interpreter; Unicode "
-              "digit/space tables and the int() digit limit regenerated from it); numpy.datetime64.astype(datetime) and pandas to_pydatetime() are "
+              "digit/space tables and the int() digit limit regenerated from it); numpy's conversion datetime64 -> datetime64[s] -> int64 and pandas to_pydatetime() are "
               "black boxes whose returned value is part of the model's input; the harness's mapping of Python objects to model constructors. "
-              "Candidate findings F-C08-3 (sub-second instants before 1970 given as float / datetime64[ns] round up; datetime64 outside "
-              "datetime's range read as garbage) and F-C08-4 (objects with to_pydatetime returned untruncated; pandas.NaT returned as NaT) are "
-              "guarded; objects with hostile attribute hooks are outside the model.")
+              "Candidate finding F-C08-5 (NumPy's unit conversion wraps or overflows for extreme datetime64 values: a wrapped year can be read as a date, "
+              "the lowest second of the ns/ps/fs ranges and all of datetime64[as] give None) is guarded; objects with hostile attribute hooks are outside the model.")
 DESIGN_REF = "DESIGN.md section 8, C08"
 # The sweep stream writes its small numbers as primitive-integer literals (an order of magnitude cheaper
 # for coqc to read than Z/N numerals); i63 converts them and calls the model's isoh_case.
@@ -69,7 +68,7 @@ TRUSTED = [
     "struct tm year -> OSError, year outside 1..9999 -> ValueError) - each validated against the running CPython on its own correspondence stream",
     "Gen/C08_Tables.v: exception classes named by parse_iso's except clause (read from the source by ast), Unicode decimal-digit / isdigit / space tables "
     "and sys.get_int_max_str_digits() (read from the running interpreter)",
-    "black boxes: numpy.datetime64.astype(datetime.datetime), pandas.Timestamp.to_pydatetime (their return value is an input of the model)",
+    "black boxes: int(value.astype('datetime64[s]').astype(numpy.int64)) for numpy.datetime64, pandas.Timestamp.to_pydatetime (their return value is an input of the model; the oracle computes the expected instant without them)",
     "the harness decides which model constructor a Python object maps to (type(x) is int -> VInt, isinstance bytes -> VBytes, ...); a wrong mapping shows as a mismatch",
 ]
 ASSUMPTIONS = [
@@ -77,20 +76,29 @@ ASSUMPTIONS = [
     "fractions longer than 6 digits are outside the property (CPython's isoformat never produces them); the theorems state exactly which still parse",
     "a date-only rendering followed by a negative offset (2020-01-01-05:00) is not an ISO 8601 form; it is read as 05:00 (observation, DESIGN section 8)",
     "strings that pass the positional shape test without being ISO renderings (2020-01-01X10:00:00, 2_20-01-01) are outside the claim (DESIGN section 8)",
-    "float epochs: int() truncation toward zero is accepted for non-negative values; negative non-integral values fall under candidate finding F-C08-3",
+    "float epochs are floored (math.floor), as are datetime64 instants; the oracle computes both floors with exact integer arithmetic",
 ]
+
+MIN_EPOCH = -62135596800
+MAX_EPOCH = 253402300799
 
 F1_WITNESSES = [{"k": "int", "n": 10 ** 20, "ty": "int"}, {"k": "float", "x": "inf", "ty": "float"},
                 {"k": "text", "s": "9" * 20}, {"k": "float", "x": (-1e300).hex(), "ty": "float"}]
 F2_WITNESSES = [{"k": "iso", "f": [2020, 1, 1, 10, 0, 0], "form": 1, "sep": "T", "frac": "", "suf": ["-", True, 5, 0], "bytes": False},
                 {"k": "iso", "f": [2020, 1, 1, 10, 0, 0], "form": 1, "sep": " ", "frac": "", "suf": ["-", False, 5, 0], "bytes": False}]
+F3_WITNESSES = [{"k": "float", "x": (-1.5).hex(), "ty": "float"}, {"k": "float", "x": (-1.5).hex(), "ty": "np.float64"},
+                {"k": "float", "x": (MIN_EPOCH - 0.5).hex(), "ty": "float"}, {"k": "float", "x": (-0.25).hex(), "ty": "float"},
+                {"k": "dt64", "unit": "ns", "i": -1500000000}, {"k": "dt64", "unit": "ns", "i": -1},
+                {"k": "dt64", "unit": "ns", "i": 1600000000999999999}, {"k": "dt64", "unit": "s", "i": 568971820800},
+                {"k": "dt64", "unit": "us", "i": -1500000}, {"k": "dt64", "unit": "ms", "i": -1}, {"k": "dt64", "unit": "D", "i": -1},
+                {"k": "dt64", "unit": "ps", "i": 10 ** 12 + 5}, {"k": "dt64", "unit": "D", "i": 2 ** 62}, {"k": "dt64", "unit": "us", "i": 2 ** 62}]
+F4_WITNESSES = [{"k": "pandas", "ns": 1577872800500000000, "tz": None}, {"k": "pandas", "ns": 1577872800500000000, "tz": "US/Eastern"},
+                {"k": "pandas", "ns": 1577872800000000500, "tz": None}, {"k": "pandas", "ns": -1500000000, "tz": "UTC"}, {"k": "pandas", "nat": True}]
 KNOWN_WITNESSES = {
-    "F-C08-3": {"k": "dt64", "unit": "ns", "i": -1500000000},
-    "F-C08-4": {"k": "pandas", "ns": 1577872800500000000, "tz": None},
+    # candidate: NumPy wraps the year silently, the value is read as 1970-01-01T00:14:56 instead of None
+    "F-C08-5": {"k": "dt64", "unit": "Y", "i": 7357062231923646800},
 }
 
-MIN_EPOCH = -62135596800
-MAX_EPOCH = 253402300799
 EXN = ["ValueError", "TypeError", "OverflowError", "OSError", "IndexError", "AttributeError"]
 
 
@@ -406,25 +414,29 @@ def observe(case):
     r = obs["iso"]
     if r[0] == "dt" and obs["ts"] == r and obs["date"] == ["d", r[1][:3]] and obs["time"] == ["t", r[1][3:]]:
         obs = {"iso": r, "casts": "agree"}
-    if k == "dt64" and not case.get("nat"):
+    if k == "dt64":
+        # the NumPy black box parse_iso relies on: whole seconds of the value, or the error NumPy raises
+        import numpy
+        import warnings
+
+        try:
+            with warnings.catch_warnings():
+                warnings.simplefilter("ignore")
+                obs["conv"] = ["secs", int(build_value(case).astype("datetime64[s]").astype(numpy.int64))]
+        except Exception as e:
+            obs["conv"] = ["raise", type(e).__name__]
+    if k == "pandas":
         import warnings
 
         with warnings.catch_warnings():
             warnings.simplefilter("ignore")
-            a = build_value(case).astype(datetime.datetime)
-        if a is None:
-            obs["astype"] = ["none"]
-        elif isinstance(a, datetime.datetime):
-            obs["astype"] = ["dt", [a.year, a.month, a.day, a.hour, a.minute, a.second, a.microsecond]]
-        elif isinstance(a, datetime.date):
-            obs["astype"] = ["d", [a.year, a.month, a.day]]
-        elif isinstance(a, int):
-            obs["astype"] = ["int", int(a)]
+            p = build_value(case).to_pydatetime()
+        if type(p) is datetime.datetime:
+            obs["topy"] = ["dt", [p.year, p.month, p.day, p.hour, p.minute, p.second, p.microsecond]]
+        elif type(p) is datetime.date:
+            obs["topy"] = ["d", [p.year, p.month, p.day]]
         else:
-            obs["astype"] = ["weird", type(a).__name__]
-    if k == "pandas" and not case.get("nat"):
-        p = build_value(case).to_pydatetime(warn=False)
-        obs["topy"] = ["dt", [p.year, p.month, p.day, p.hour, p.minute, p.second, p.microsecond]]
+            obs["topy"] = ["other", type(p).__name__]
     return obs
 
 
@@ -440,6 +452,45 @@ def _civil(n):
 
 def _expect_epoch(n):
     return ["dt", _civil(n)] if MIN_EPOCH <= n <= MAX_EPOCH else ["none"]
+
+
+_DT64_FIXED = {"W": (604800, 1), "D": (86400, 1), "h": (3600, 1), "m": (60, 1), "s": (1, 1), "ms": (1, 10 ** 3), "us": (1, 10 ** 6),
+               "ns": (1, 10 ** 9), "ps": (1, 10 ** 12), "fs": (1, 10 ** 15), "as": (1, 10 ** 18)}
+
+
+def _jan1_days(y):
+    """day number of y-01-01 (proleptic Gregorian, any integer year)"""
+    y -= 1
+    era = y // 400
+    yoe = y - era * 400
+    return era * 146097 + yoe * 365 + yoe // 4 - yoe // 100 + 306 - 719468
+
+
+_CUM = [0, 31, 59, 90, 120, 151, 181, 212, 243, 273, 304, 334]
+
+
+def _dt64_exact(unit, i):
+    """floor, in whole seconds since the epoch, of the instant numpy.datetime64(i, unit) denotes (exact integers)"""
+    if unit in _DT64_FIXED:
+        num, den = _DT64_FIXED[unit]
+        return (i * num) // den
+    if unit == "Y":
+        return _jan1_days(1970 + i) * 86400
+    if unit == "M":
+        y, m0 = 1970 + i // 12, i % 12
+        leap = y % 4 == 0 and (y % 100 != 0 or y % 400 == 0)
+        return (_jan1_days(y) + _CUM[m0] + (1 if leap and m0 >= 2 else 0)) * 86400
+    raise KeyError(unit)
+
+
+def _pandas_wall(ns, tz):
+    """wall clock (whole seconds) of the instant ns nanoseconds after the epoch, in tz - without pandas"""
+    import zoneinfo
+
+    t = datetime.datetime(1970, 1, 1, tzinfo=datetime.timezone.utc) + datetime.timedelta(seconds=ns // 10 ** 9)
+    if tz is not None:
+        t = t.astimezone(zoneinfo.ZoneInfo(tz))
+    return [t.year, t.month, t.day, t.hour, t.minute, t.second, 0]
 
 
 def _strip_like_documented(s):
@@ -574,22 +625,14 @@ def oracle(case, obs):
         if case.get("nat"):
             want = ["none"]
         else:
-            a = obs["astype"]
-            if a[0] == "dt":
-                want = ["dt", a[1][:6] + [0]]
-            elif a[0] == "d":
-                want = ["dt", a[1] + [0, 0, 0, 0]]
-            elif a[0] == "int" and case["unit"] == "ns":
-                want = _expect_epoch(int(a[1]) // 10 ** 9)
-            else:
-                want = ["none"]  # not representable as a date-time of years 1..9999
+            want = _expect_epoch(_dt64_exact(case["unit"], int(case["i"])))
         if r != want:
-            why = "numpy.datetime64 must map to its wall-clock time in whole seconds: expected %s, got %s" % (want, r)
+            why = "numpy.datetime64 is the instant it denotes, in whole seconds (floor), None outside years 1..9999: expected %s, got %s" % (want, r)
     elif k == "pandas":
         if case.get("nat"):
             want = ["none"]
         else:
-            want = ["dt", obs["topy"][1][:6] + [0]]
+            want = ["dt", _pandas_wall(int(case["ns"]), case.get("tz"))]
         if r != want:
             why = "pandas value must map to its wall-clock time in whole seconds: expected %s, got %s" % (want, r)
     elif k == "obj":
@@ -606,25 +649,18 @@ def oracle(case, obs):
 
 # --------------------------------------------------------------------------- known findings (candidate)
 def known(case, obs):
-    if case["k"] in ("sweep", "iso"):
+    """F-C08-5 (candidate): NumPy's own conversion to datetime64[s] is not the floor of the instant (silent int64 wrap for
+    Y / M units, OverflowError at the lowest second of the ns / ps / fs ranges and for every datetime64[as]) AND that
+    matters, i.e. the true instant or the converted value lies inside years 1..9999."""
+    if case["k"] != "dt64" or case.get("nat") or not isinstance(obs, dict) or "conv" not in obs:
         return None
-    obs = _full(obs)
-    k = case["k"]
-    if k == "float" and case["x"] not in ("nan", "inf", "-inf"):
-        f = float.fromhex(case["x"])
-        if f < 0 and f != math.floor(f) and MIN_EPOCH - 1 < f:
-            return "F-C08-3"
-    if k == "dt64" and not case.get("nat") and isinstance(obs, dict) and obs.get("astype", [""])[0] == "int":
-        n = int(obs["astype"][1])
-        if case["unit"] == "ns" and n >= 0 and n % 10 ** 9 <= 999000000:
-            return None
-        return "F-C08-3"
-    if k == "pandas":
-        if case.get("nat"):
-            return "F-C08-4"
-        if isinstance(obs, dict) and obs.get("topy", [0, [0] * 7])[1][6] != 0:
-            return "F-C08-4"
-    return None
+    exact = _dt64_exact(case["unit"], int(case["i"]))
+    conv = obs["conv"]
+    if conv == ["secs", exact]:
+        return None
+    in_range = MIN_EPOCH <= exact <= MAX_EPOCH
+    conv_in_range = conv[0] == "secs" and MIN_EPOCH <= conv[1] <= MAX_EPOCH
+    return "F-C08-5" if (in_range or conv_in_range) else None
 
 
 # --------------------------------------------------------------------------- Coq terms
@@ -729,22 +765,19 @@ def value_term(case, obs):
             return "(VDate %s %s %s)" % tuple(_z(x) for x in f[:3])
         return "(VDatetime %s)" % " ".join(_z(x) for x in f)
     if k == "dt64":
-        if case.get("nat"):
-            return "(VNpDatetime64 AsNone)"
-        a = obs["astype"]
-        if a[0] == "none":
-            return "(VNpDatetime64 AsNone)"
-        if a[0] == "dt":
-            return "(VNpDatetime64 (AsDatetime %s))" % " ".join(_z(x) for x in a[1])
-        if a[0] == "d":
-            return "(VNpDatetime64 (AsDate %s))" % " ".join(_z(x) for x in a[1])
-        if a[0] == "int":
-            return "(VNpDatetime64 (AsInt %s))" % _z(a[1])
+        c = obs["conv"]
+        if c[0] == "secs":
+            return "(VNpDatetime64 (NpSecs %s))" % _z(c[1])
+        if c == ["raise", "OverflowError"]:
+            return "(VNpDatetime64 NpOverflow)"
         return None
     if k == "pandas":
-        if case.get("nat"):
-            return None
-        return "(VToPy (Some %s))" % _dt(obs["topy"][1])
+        t = obs["topy"]
+        if t[0] == "dt":
+            return "(VToPy (ToDatetime %s))" % " ".join(_z(x) for x in t[1])
+        if t[0] == "d":
+            return "(VToPy (ToDate %s))" % " ".join(_z(x) for x in t[1])
+        return "(VToPy ToOther)"
     if k == "obj":
         if case["what"] == "None":
             return None  # OrsoTypes.parse(None) short-circuits to None: checked by the oracle only
@@ -1027,8 +1060,10 @@ def _rand_native(rng):
     return {"k": "native", "ty": ty, "f": [y, m, d, h, mi, s, us], "off": rng.choice([0, 60, -300, 330, -720, 840, 1439, -1439])}
 
 
-_DT64_UNITS = ["Y", "M", "W", "D", "h", "m", "s", "ms", "us", "ns"]
-_UNIT_SEC = {"Y": 31556952, "M": 2629746, "W": 604800, "D": 86400, "h": 3600, "m": 60, "s": 1, "ms": 1e-3, "us": 1e-6, "ns": 1e-9}
+_DT64_UNITS = ["Y", "M", "W", "D", "h", "m", "s", "ms", "us", "ns", "ns", "us", "ms", "s", "D", "ps", "fs", "as"]
+_UNIT_SEC = {"Y": 31556952, "M": 2629746, "W": 604800, "D": 86400, "h": 3600, "m": 60, "s": 1}
+_UNIT_PER_SEC = {"ms": 10 ** 3, "us": 10 ** 6, "ns": 10 ** 9, "ps": 10 ** 12, "fs": 10 ** 15, "as": 10 ** 18}
+_I64 = 2 ** 63
 
 
 def _rand_dt64(rng):
@@ -1036,28 +1071,38 @@ def _rand_dt64(rng):
         return {"k": "dt64", "nat": True}
     u = rng.choice(_DT64_UNITS)
     r = rng.random()
-    if r < 0.6:
+    if r < 0.5:
         sec = rng.randint(MIN_EPOCH, MAX_EPOCH)
+    elif r < 0.65:
+        sec = rng.randint(-4 * 10 ** 9, 4 * 10 ** 9)          # around 1970, both sides
     elif r < 0.8:
-        sec = rng.randint(0, 4 * 10 ** 9)
-    elif r < 0.9:
         sec = rng.choice([MIN_EPOCH, MAX_EPOCH, 0]) + rng.randint(-10 ** 6, 10 ** 6)
+    elif r < 0.9:
+        sec = rng.randint(-10 ** 13, 10 ** 13)                # far outside years 1..9999
     else:
-        sec = rng.randint(-10 ** 12, 10 ** 12)
-    i = int(sec / _UNIT_SEC[u])
-    if u in ("ms", "us", "ns"):
-        i += rng.choice([0, 0, 1, -1, 999, 500 * int(1e-3 / _UNIT_SEC[u]), rng.randint(0, int(1 / _UNIT_SEC[u]))])
-    if u == "ns" and rng.random() < 0.3:
-        i = rng.randint(0, 2 ** 62) // 10 ** 9 * 10 ** 9 + rng.choice([0, 1, 999999999, 999999000, 999000001, 500000000])
-    i = max(-2 ** 63 + 1, min(2 ** 63 - 1, i))
+        sec = rng.choice([-1, 1]) * rng.randint(0, 10 ** rng.randint(1, 19))
+    if u in _UNIT_SEC:
+        i = sec // _UNIT_SEC[u] + rng.choice([0, 0, 1, -1])
+    else:
+        k = _UNIT_PER_SEC[u]
+        # whole second plus a sub-second part: zero, one tick either side, half, just below the next second
+        i = sec * k + rng.choice([0, 0, 1, -1, k // 2, k - 1, k - 1000 if k > 1000 else 0, rng.randint(0, k - 1)])
+    rr = rng.random()
+    if rr < 0.06:
+        i = rng.choice([_I64 - 1, -_I64 + 1, -_I64 + 2, _I64 - 2]) + 0
+    elif rr < 0.12:
+        i = rng.choice([-1, 1]) * (_I64 - 1 - rng.randint(0, 10 ** rng.randint(0, 18)))
+    elif rr < 0.16 and u in _UNIT_PER_SEC:
+        i = rng.randint(0, 10) * rng.choice([1, -1])      # a few ticks around the epoch (all that fs / as can hold near it)
+    i = max(-_I64 + 1, min(_I64 - 1, i))
     return {"k": "dt64", "unit": u, "i": i}
 
 
 def _rand_pandas(rng):
     if rng.random() < 0.05:
         return {"k": "pandas", "nat": True}
-    sec = rng.randint(-9 * 10 ** 9, 9 * 10 ** 9)
-    ns = sec * 10 ** 9 + rng.choice([0, 0, 0, 1, 500, 500000000, 123456000, 999999999])
+    sec = rng.choice([rng.randint(-9 * 10 ** 9, 9 * 10 ** 9), rng.randint(-10 ** 6, 10 ** 6), rng.randint(-9 * 10 ** 9, 0)])
+    ns = sec * 10 ** 9 + rng.choice([0, 0, 1, 500, 500000000, 123456000, 999999999, 999999000, 1000])
     return {"k": "pandas", "ns": ns, "tz": rng.choice([None, None, "UTC", "US/Eastern", "Asia/Kolkata"])}
 
 
@@ -1092,8 +1137,12 @@ def _random_case(rng):
 
 
 def corpus():
-    for w in F1_WITNESSES + F2_WITNESSES:
+    for w in F1_WITNESSES + F2_WITNESSES + F3_WITNESSES + F4_WITNESSES:
         yield w
+    for c in [{"k": "dt64", "unit": "Y", "i": 7357062231923646800}, {"k": "dt64", "unit": "ns", "i": -2 ** 63 + 1},
+              {"k": "dt64", "unit": "as", "i": -1}, {"k": "dt64", "unit": "Y", "i": 2 ** 40}, {"k": "dt64", "unit": "M", "i": -1},
+              {"k": "dt64", "unit": "Y", "i": 8029}, {"k": "dt64", "unit": "Y", "i": 8030}, {"k": "dt64", "unit": "Y", "i": -1969}, {"k": "dt64", "unit": "Y", "i": -1970}]:
+        yield c
     for s in _FIXED_TEXTS:
         yield {"k": "text", "s": s}
     for n in _EDGE_INTS:
@@ -1114,9 +1163,8 @@ def corpus():
                 for nfrac in ([0, 1, 3, 6, 7, 8, 9] if form == 0 else [0]):
                     for by in (False, True):
                         yield {"k": "iso", "f": [2020, 2, 29, 23, 59, 58], "form": form, "sep": sep, "frac": "123456789"[:nfrac], "suf": suf, "bytes": by}
-    for c in [{"k": "dt64", "nat": True}, {"k": "dt64", "unit": "ns", "i": -1500000000}, {"k": "dt64", "unit": "s", "i": 568971820800},
-              {"k": "dt64", "unit": "ns", "i": 1600000000999999999}, {"k": "dt64", "unit": "us", "i": -1500000}, {"k": "dt64", "unit": "D", "i": 0},
-              {"k": "pandas", "nat": True}, {"k": "pandas", "ns": 1577872800000000000, "tz": None}, {"k": "pandas", "ns": 1577872800500000000, "tz": None},
+    for c in [{"k": "dt64", "nat": True}, {"k": "dt64", "unit": "D", "i": 0},
+              {"k": "pandas", "ns": 1577872800000000000, "tz": None},
               {"k": "bytes", "b": "ff", "ty": "bytes"}, {"k": "bytes", "b": b"2020-01-01".hex(), "ty": "np.bytes_"}, {"k": "bytes", "b": b"1234567890".hex(), "ty": "bytes"}]:
         yield c
     for y, m, d in [(1, 1, 1), (9999, 12, 31), (2000, 2, 29), (1900, 2, 28), (1970, 1, 1)]:
